@@ -18,6 +18,8 @@ NUMS = ['i:0', 'i:7', 'i:-1', 'i:1000000000000', 'b:True',
         'F:1/3', 'F:-2/7', 'F:1/2', 'F:22/7',
         'f:0.1', 'f:2.5', 'f:1e-30', 'f:5e-324', 'f:1e+300', 'f:-0.0',
         'S:1.5', 'S:-0.125', 'S:1E+3',
+        'S:12345678901234567890.12345678901',
+        'S:0.1000000000000000055511151231257827021181583404541015625',
         's:17', 's:-2.5', 's:1e3', 's:1E-3', 's:.5', 's:5.', 's:+3',
         's:1/3', 's:-22/7', 's:  7', 's:0.000001']
 USER = [
@@ -29,6 +31,10 @@ USER = [
     ['dtype', 'RpT', [['R', 1], ['T2', -2]], None, None],
     ['type', 'Pct', '%', 'D:0.01'],
     ['unit', 'Pct', '‰', ['term', [['D:0.1', 1], ['%', 1]]]],
+    ['unit', 'R', '\u2126', ['scaled', 'D:0.5', 'Ω']],        # OHM SIGN
+    ['unit', 'R', 'k\u2126', ['scaled', 'i:500', 'Ω']],
+    ['type', 'Lx', '\u212b', None],                          # ANGSTROM SIGN
+    ['unit', 'Lx', 'e\u0301m', ['scaled', 'i:10', '\u212b']],  # combining
     ['type', 'NR', None, None],
     ['unit', 'NR', 'µx', ['none']],
     ['unit', 'NR', 'x y', ['none']],
@@ -272,7 +278,8 @@ def replay(case):
 def run(tier, seed):
     total = Stats()
     syms = list(O.UNIT_REF) + ['Ω', 'kΩ', 's2', 'kΩ·s2', '%', '‰', 'µx',
-                               'x y'] + CURRENCIES
+                               'x y', '\u2126', 'k\u2126', '\u212b',
+                               'e\u0301m'] + CURRENCIES
     nums = NUMS
     total.merge(pmap(part_units, [syms[i::16] for i in range(16)], (nums,),
                      fresh=True))
